@@ -291,6 +291,100 @@ def run_race(item, acc):
                     "schedules": res.executions, "end_states(stdout,stderr_left)": [[a.decode(), b.decode()] for a, b in sorted(seen)]})
 
 
+# ------------------------------------------------------------------ channel closed & dropped, new one opened
+def make_reopen_body(rscn):
+    drop_ref, old_kind, n_new = rscn
+
+    def body(s):
+        import socket
+        p = F.Pair().up()
+        p.ts._channel_counter = 5
+        c0 = p.tc.open_session()
+        s0 = p.ts.accept(5)
+        s.quiesce()
+        p.s2c.gated = True          # the old channel's last traffic is still in flight
+        if old_kind in ("data", "data+close"):
+            s0.send(b"OLD-DATA")
+        if old_kind == "ext":
+            s0.send_stderr(b"OLD-ERR!")
+        if old_kind == "data+close":
+            s0.close()
+        s.quiesce()
+        c0.close()                  # the application is done with the old channel ...
+        if drop_ref:
+            del c0                  # ... and forgets it (the channel map only holds weak references)
+        s.quiesce()
+        news = []
+        for i in range(n_new):
+            res = {}
+
+            def opener():
+                try:
+                    res["c"] = p.tc.open_session(timeout=20)
+                except Exception as e:  # noqa
+                    res["e"] = e
+            th = vthreading.Thread(target=opener)
+            th.start()
+            s.quiesce()
+            p.s2c.deliver_all()     # old traffic first, then the confirmation of the new channel
+            s.quiesce()
+            for _ in range(40):
+                if not th.is_alive():
+                    break
+                p.s2c.deliver_all()
+                s.advance(0.2)
+                s.quiesce()
+            th.join(1)
+            if "c" not in res:
+                raise RuntimeError("open_session failed: %r" % res.get("e"))
+            news.append((res["c"], p.ts.accept(5)))
+        p.s2c.gated = False
+        p.s2c.deliver_all()
+        s.quiesce()
+        out = []
+        for i, (c, sv) in enumerate(news):
+            payload = b"new-%d" % i
+            sv.send(payload)
+            sv.send_stderr(payload.upper())
+            s.quiesce()
+            c.settimeout(1.0)
+            got = [b"", b""]
+            for j, fn in enumerate((c.recv, c.recv_stderr)):
+                try:
+                    got[j] = fn(100)
+                except socket.timeout:
+                    got[j] = b"<TIMEOUT>"
+            out.append((payload, got[0], got[1], c.closed))
+        active = (p.tc.is_active(), p.ts.is_active())
+        p.close()
+        s.quiesce()
+        return out, active
+    return body
+
+
+def run_reopen(item, acc):
+    tier, rscn = item
+    ex = S.run_once(make_reopen_body(rscn), horizon=S.EPOCH + 300)
+    from vmc import install
+    install.cleanup_after_execution()
+    acc.ev()
+    acc.nt(("reopen", rscn))
+    if ex.outcome != "ok":
+        acc.violation("reopen:%s:%s" % (ex.outcome, type(ex.error).__name__), {"scn": rscn, "err": repr(ex.error)[:300]},
+                      {"reopen": rscn})
+        return
+    out, active = ex.value
+    for payload, o, e, closed in out:
+        if o != payload or e != payload.upper() or closed or not all(active):
+            acc.violation("reopen:new-channel-stream-differs-or-torn-down",
+                          {"scn": rscn, "wrote": payload.decode(), "stdout": o.decode("latin1"), "stderr": e.decode("latin1"),
+                           "closed": closed, "active": active}, {"reopen": rscn})
+            return
+    if len(acc.samples) < 6:
+        acc.sample({"reopen": {"drop_reference": rscn[0], "old_traffic_in_flight": rscn[1], "new_channels": rscn[2]},
+                    "streams_ok": True})
+
+
 def scenarios(tier):
     out = []
     quick = tier == "quick"
@@ -370,6 +464,8 @@ def main(tier):
     ck.merge(core.pmap(items, run_scn))
     races = [(tier, (pre, n), 2 if tier == "quick" else 3) for pre in (0, 2) for n in (1, 2)]
     ck.merge(core.pmap(races, run_race))
+    reopen = [(tier, (d, k, n)) for d in (True, False) for k in ("data", "ext", "data+close") for n in (1, 2)]
+    ck.merge(core.pmap(reopen, run_reopen))
     for n in ck.acc.notes:
         ck.cap_hit(n)
     return ck.finish()
@@ -377,6 +473,10 @@ def main(tier):
 
 def replay(rec):
     r = rec["replay"]
+    if "reopen" in r:
+        ex = S.run_once(make_reopen_body(tuple(r["reopen"])), horizon=S.EPOCH + 300)
+        print(ex.outcome, ex.error, ex.value)
+        return 1 if ex.outcome != "ok" or any(o != pl or e != pl.upper() or cl for pl, o, e, cl in ex.value[0]) else 0
     if "race" in r:
         ex = explore.replay(make_race_body(tuple(r["race"])), r["choices"], "preempt", {"trace_files": RACE_TRACE})
         print(ex.outcome, ex.error, ex.value)
